@@ -203,8 +203,17 @@ pub fn check(case: &SchedCase, rr: &RunRec, stats: &mut C08Stats) -> Vec<Viol> {
 /// above the purge point is gone. Ground truth is read from the directory.
 pub fn check_end_state(case: &SchedCase, rr: &RunRec, stats: &mut C08Stats) -> Vec<Viol> {
     let mut out = vec![];
-    if rr.faults_fired > 0 || rr.worker_dead || rr.completed_steps < case.hist.steps.len() {
+    if rr.worker_dead || rr.completed_steps < case.hist.steps.len() {
         return out;
+    }
+    // with injected faults the end state is judged only if the history's final flush was acknowledged Ok
+    // (a successful sync makes every earlier purge durable, so postponed removals must have happened by now)
+    if rr.faults_fired > 0 {
+        let last_ok = rr.flushes.iter().rev().find(|f| f.cb).map(|f| crate::trace::ack_state(f.id) == Some(crate::trace::AckState::Ok)).unwrap_or(false);
+        let ends_with_sync = matches!(case.hist.steps.last().map(|s| &s.op), Some(crate::store::Op::Sync));
+        if !(last_ok && ends_with_sync) {
+            return out;
+        }
     }
     let img = crate::store::read_image(&rr.dir);
     let Some(final_model) = rr.models.last() else { return out };
@@ -219,7 +228,14 @@ pub fn check_end_state(case: &SchedCase, rr: &RunRec, stats: &mut C08Stats) -> V
             purge_chunk_ix = Some(k);
         }
     }
-    let Some(limit) = purge_chunk_ix else { return out };
+    let Some(mut limit) = purge_chunk_ix else { return out };
+    // a chunk that was closed BY the purge record itself (the record is its last one) was already closed when the
+    // purge looked for obsolete chunks
+    if limit + 1 < img.len() {
+        if let Some((_, _, Rec::Purge(_))) = refcodec::parse_file(&img[limit].1).recs.last() {
+            limit += 1;
+        }
+    }
     for k in 0..limit.min(img.len().saturating_sub(1)) {
         stats.end_state_closed_chunks_examined += 1;
         let p = refcodec::parse_file(&img[k].1);
